@@ -72,6 +72,7 @@ class IntegrateModel:
             raise AnalysisError("OdeSystem.integrate signature changed: %s" % self.params)
         # the target local: assigned from parameter t and from self.tf
         self.tf = None
+        self.tf_bindings = []
         tparam = self.params[1]
         for st in walk_no_nested(fn):
             if isinstance(st, ast.Assign) and isinstance(st.targets[0], ast.Name):
@@ -80,6 +81,15 @@ class IntegrateModel:
                 # tf = t  (inside `if t is not None`)   or   tf = t if t is not None else self.tf   (either arrangement)
                 if (isinstance(v, ast.Name) and v.id == tparam) or (isinstance(v, ast.IfExp) and tparam in names and "self.tf" in src(v)):
                     self.tf = st.targets[0].id
+                    self.tf_bindings.append((st, None))
+                else:
+                    # tf = conv(t)  /  tf = conv(t) if t is not None else self.tf : the conversion is judged by C03.11, the anchor is the same local
+                    alts = [v.body, v.orelse] if isinstance(v, ast.IfExp) else [v]
+                    for a in alts:
+                        if isinstance(a, ast.Call) and a.args and isinstance(a.args[0], ast.Name) and a.args[0].id == tparam and \
+                                not any(isinstance(n, ast.Name) and n.id == tparam for x in a.args[1:] for n in ast.walk(x)):
+                            self.tf = st.targets[0].id
+                            self.tf_bindings.append((st, a))
         if self.tf is None:
             raise AnalysisError("anchor missing: local bound to the call's target time in integrate")
         trys = [st for st in fn.body if isinstance(st, ast.Try)]
